@@ -293,6 +293,58 @@ def run_dataclasses(ctx):
                 optree.unregister_pytree_node(g[1], namespace=GLOBAL)
 
 
+def field_histories(ctx):
+    """Every sequence of 1..3 optree.dataclasses.field() calls x pytree_node in {default, True, False} that share ONE
+    caller-owned metadata dict (fresh / already carrying pytree_node=False), the fields going into one class or into
+    one class per call: each field keeps its own flag, the caller's dict is not written to, its other keys are kept,
+    and the children of an instance are exactly the fields whose effective flag is true."""
+    n = 0
+    for length in (1, 2, 3):
+        for flags in itertools.product((None, True, False), repeat=length):
+            for seedmd in ({'unit': 'm'}, {'unit': 'm', 'pytree_node': False}):
+                for split in ((False, True) if length > 1 else (False,)):
+                    n += 1
+                    if not ctx.mine(n):
+                        continue
+                    ctx.count()
+                    ctx.cls(('field-history', flags, tuple(seedmd), split))
+                    case = {'field_history': list(flags), 'shared_metadata': dict(seedmd), 'one_class_per_field': split}
+                    shared = dict(seedmd)
+                    fields = [optree.dataclasses.field(metadata=shared, pytree_node=f) for f in flags]
+                    want = [seedmd.get('pytree_node', True) if f is None else f for f in flags]
+                    problems = []
+                    if shared != seedmd:
+                        problems.append(f"caller's metadata dict was modified: {shared!r}")
+                    groups = [[i] for i in range(length)] if split else [list(range(length))]
+                    made = []
+                    try:
+                        for g in groups:
+                            names = [f'f{i}' for i in g]
+                            body = {'__annotations__': {nm: object for nm in names}}
+                            for nm, i in zip(names, g):
+                                body[nm] = fields[i]
+                            cls = optree.dataclasses.dataclass(type(f'H{n}', (), body), namespace=NS)
+                            made.append(cls)
+                            got = [f.metadata.get('pytree_node') for f in std.fields(cls)]
+                            if got != [want[i] for i in g] or any(f.metadata.get('unit') != 'm' for f in std.fields(cls)):
+                                problems.append(f'field flags {got!r} (expected {[want[i] for i in g]!r}), '
+                                                f'metadata {[dict(f.metadata) for f in std.fields(cls)]!r}')
+                            vals = [Leaf(i) for i in g]
+                            obj = cls(*vals)
+                            leaves = optree.tree_leaves(obj, namespace=NS)
+                            exp = [v for v, i in zip(vals, g) if want[i]]
+                            if len(leaves) != len(exp) or any(a is not b for a, b in zip(leaves, exp)):
+                                problems.append(f'children {leaves!r} expected {exp!r}')
+                    except Exception as ex:  # noqa: BLE001
+                        problems.append(f'{type(ex).__name__}: {ex}')
+                    finally:
+                        for cls in made:
+                            unregister(cls)
+                    ctx.outcome('field-history')
+                    for p_ in problems:
+                        ctx.violation('field-history', f'{PROP}:field-shared-metadata', case, p_)
+
+
 # ---- partial -----------------------------------------------------------------------------------------------
 
 CALLS = []
@@ -396,12 +448,16 @@ def partial_case(ctx, U, P, arg_dsl, kw_dsl, nesting, inner_kind, outer_shape): 
 
 
 def run_shard(ctx):
+    field_histories(ctx)
     run_dataclasses(ctx)
     run_partial(ctx)
 
 
 def replay(case, ctx):
     c = case['case']
+    if 'field_history' in c:
+        ctx.nshards, ctx.shard = 1, 0
+        return field_histories(ctx)  # the whole 156-history product is re-run (cheap); the case names the cell
     if 'opts' in c:
         check_layout(ctx, tuple(tuple(o) for o in c['opts']), c['flags'], c['form'], c['inherit'])
     else:
